@@ -7,8 +7,8 @@ from lib import Result, RMODES, OMODES, e_fmt, e_list, e_dy, model_call, run_sha
 RULE = ('histories of up to 10 steps on one object (scalar and array writes by call / set_val / indexed assignment, reset(), interleaved arithmetic with a second operand) '
         'over core-domain formats and all 10 mode pairs, with a recording callback object; values are boundary-biased (both bounds +-1 LSB/4, ties, far outside). After every step the three '
         'flags, the extended_prec entry and the callback log of that step are compared with the model trace (Status.history_run over Store.set_val_real) and with the Spec conditions. '
-        'Non-trivial = the history raises at least one flag; distinct by full history.')
-ASSUMPTIONS = ['real-valued writes only (the complex path calls _overflow_action once per component)', 'the mechanism that invokes callbacks (hasattr/getattr loop) is exercised, not modelled']
+        'Complex writes (scalars, lists, complex128 arrays): flags = OR over both components, each callback at most once per write, reset, same write again. Non-trivial = the history raises at least one flag; distinct by full history.')
+ASSUMPTIONS = ['histories use real-valued writes; complex writes are checked one write at a time (flags, callbacks, reset)', 'the mechanism that invokes callbacks (hasattr/getattr loop) is exercised, not modelled']
 EV = {0: 'ovf', 1: 'unf', 2: 'inacc', 3: 'change'}
 
 def gen_history(rng):
@@ -122,10 +122,57 @@ def run_batch(hs, res):
     outs = model_call([ro[0] for _, ro in pend])
     for (h, ro), out in zip(pend, outs): compare(h, ro, out, res)
 
+def run_complex_writes(cases, res):
+    """a complex write: flags = OR over both components of the Spec conditions; every callback at most once per write"""
+    from lib import e_f64
+    fx = lib.impl(); import numpy as np
+    pend = []; reqs = []
+    for c in cases:
+        s, nw, nf = c['s'], c['nw'], c['nf']; rec = S.Recorder()
+        zs = [complex(a, b) for a, b in zip(c['re'], c['im'])]
+        val = zs[0] if c['carrier'] == 'pycomplex' else (list(zs) if c['carrier'] == 'list' else np.array(zs, dtype=np.complex128))
+        try:
+            x = fx.Fxp(None, s, nw, nf, rounding=c['r'], overflow=c['o'], callbacks=[rec]); rec.log.clear()
+            (x if c['route'] == 'call' else x.set_val)(val)
+            first = (lib.status3(x), list(rec.log))
+            rec.log.clear(); x.reset(); after_reset = lib.status3(x)
+            rec.log.clear(); (x if c['route'] == 'call' else x.set_val)(val); second = (lib.status3(x), list(rec.log))
+        except Exception as e:
+            res.fail(c, 'C04: a complex write raised %s' % lib.exc_name(e), got=str(e)[:200]); continue
+        pend.append((c, first, after_reset, second))
+        f = e_fmt(s, nw, nf); ro = [RMODES.index(c['r']), OMODES.index(c['o'])]
+        reqs.append([4] + f + ro + e_list([Fraction(t) for t in c['re']], e_dy)); reqs.append([4] + f + ro + e_list([Fraction(t) for t in c['im']], e_dy))
+        reqs.append([11] + f + ro + e_list(c['re'], e_f64) + e_list(c['im'], e_f64))
+    outs = model_call(reqs)
+    for i, (c, first, after_reset, second) in enumerate(pend):
+        r1 = Reader(outs[3 * i]); r1.lst(r1.z); f1 = (r1.b(), r1.b(), r1.b())
+        r2 = Reader(outs[3 * i + 1]); r2.lst(r2.z); f2 = (r2.b(), r2.b(), r2.b())
+        want = tuple(a or b for a, b in zip(f1, f2))
+        want_ev = [n for n, b in zip(('ovf', 'unf', 'inacc'), want) if b] + ['change']
+        res.count('X:complex-writes', key=repr(c), nontrivial=any(want), n=2)
+        res.sample(c)
+        if first[0] != want or second[0] != want or after_reset != (False, False, False):
+            res.fail(c, 'C04: flags after a complex write are not the OR of the conditions of both components (or reset did not clear them)', expected=want, got=(first[0], after_reset, second[0])); continue
+        if first[1] != want_ev or second[1] != want_ev:
+            res.fail(c, 'C04: callbacks of a complex write are not invoked once for exactly the conditions that occurred', expected=want_ev, got=first[1]); continue
+        kind, rd = outcome(outs[3 * i + 2])
+        if kind == 'ok':
+            rd.lst(rd.z); rd.lst(rd.z); mst = (rd.b(), rd.b(), rd.b())
+        if kind != 'ok' or mst != want:
+            res.fail(c, 'model set_val_complex flags disagree with the implementation although the Spec agrees', expected=str(kind), got=want); res.failures[-1]['no_input'] = True
+
+def gen_complex_write(rng):
+    s, nw, nf = S.random_format(rng, max_word=rng.choice([6, 12, 52]))
+    k = rng.choice([1, 1, 2, 3])
+    re = [float(S.as_number(v)) for v in S.boundary_values(rng, s, nw, nf, k)]; im = [float(S.as_number(v)) for v in S.boundary_values(rng, s, nw, nf, k)]
+    return {'s': s, 'nw': nw, 'nf': nf, 'r': rng.choice(RMODES), 'o': rng.choice(OMODES), 'carrier': 'pycomplex' if (k == 1 and rng.random() < 0.5) else rng.choice(['list', 'arr:complex128']),
+            'route': rng.choice(['call', 'set_val']), 're': re, 'im': im}
+
 def shard(shard, nshards, rng, tier, extra):
     res = Result()
     n = (3000 if tier == 'quick' else 60000) // nshards
     run_batch([gen_history(rng) for _ in range(n)], res)
+    run_complex_writes([gen_complex_write(rng) for _ in range((600 if tier == 'quick' else 12000) // nshards)], res)
     return res
 
 def run(seed, tier):
@@ -137,6 +184,7 @@ def classify(fl):
 def shrink(fl):
     """drop steps while the same failure kind persists"""
     h = fl['case']; what = fl['what']
+    if 'steps' not in h: return fl
     steps = list(h['steps'])
     i = 0
     while i < len(steps) and len(steps) > 1:
@@ -148,5 +196,7 @@ def shrink(fl):
     return fl
 
 def replay(payload):
-    res = Result(); run_batch([payload['case']], res)
+    res = Result()
+    if 're' in payload['case']: run_complex_writes([payload['case']], res)
+    else: run_batch([payload['case']], res)
     return {'holds': not res.failures, 'failures': res.failures}
